@@ -36,7 +36,9 @@ theorem backward_eq_spec (E : Engine α) (tensors inputs : List Key)
     (backward E tensors inputs A chunk retain h).err = none ∧
     ∀ k, (backward E tensors inputs A chunk retain h).grads k =
       if k ∈ inputs then accum (h k) (sliceOf E.numel inputs k v) else h k := by
-  sorry
+  rw [backward_eq_go E tensors inputs A chunk retain h hv.chunk_pos]
+  exact go_ok E hv.wf tensors inputs A _ retain h hv.tensors_nodup hv.inputs_nodup hv.rows_pos
+    (toNat_chunk_pos chunk hv.chunk_pos) hne hv.outs_rg hv.ins_ok v hA hlen
 
 /-- the matrix handed to the aggregator IS the true Jacobian (this is what the value theorem above
     rests on; stated separately because C15 and C05 use it): on a valid call, `Jac ∘ Diagonalize ∘
@@ -47,7 +49,13 @@ theorem backward_matrix_is_jacobian (E : Engine α) (tensors inputs : List Key) 
         (diagonalizeT E tensors (initT E tensors)) = .ok (j, sw) ∧
       unite ((tensors.map E.numel).sum) (inputs.map fun k => lookupD j k []) =
         fullJac E tensors inputs := by
-  sorry
+  obtain ⟨sw, hsw⟩ := jacT_backward E hv.wf tensors inputs (chunk.map Int.toNat) retain
+    hv.tensors_nodup hv.rows_pos (toNat_chunk_pos chunk hv.chunk_pos) hne hv.outs_rg
+    (fun i hi => (hv.ins_ok i hi).1)
+  refine ⟨_, sw, hsw, ?_⟩
+  rw [map_lookupD_zip inputs _ [] hv.inputs_nodup (by simp [subMatrices_length]),
+    ← fullJac_length E tensors inputs]
+  exact unite_subMatrices_eq _ _ (fullJac_row_length E hv.wf tensors inputs)
 
 /-- if the aggregator rejects the Jacobian, `backward` reports that error and no `.grad` changes -/
 theorem backward_aggregator_error (E : Engine α) (tensors inputs : List Key)
@@ -56,7 +64,10 @@ theorem backward_aggregator_error (E : Engine α) (tensors inputs : List Key)
     (e : Err) (hA : A (fullJac E tensors inputs) = .error e) :
     (backward E tensors inputs A chunk retain h).err = some e ∧
     (backward E tensors inputs A chunk retain h).grads = h := by
-  sorry
+  rw [backward_eq_go E tensors inputs A chunk retain h hv.chunk_pos]
+  exact go_agg_error E hv.wf tensors inputs A _ retain h hv.tensors_nodup hv.inputs_nodup
+    hv.rows_pos (toNat_chunk_pos chunk hv.chunk_pos) hne hv.outs_rg
+    (fun i hi => (hv.ins_ok i hi).1) e hA
 
 /-- an aggregator returning a vector of the wrong length is rejected (`_disunite`), nothing changes -/
 theorem backward_wrong_length (E : Engine α) (tensors inputs : List Key)
@@ -66,7 +77,10 @@ theorem backward_wrong_length (E : Engine α) (tensors inputs : List Key)
     (hlen : v.length ≠ (inputs.map E.numel).sum) :
     (backward E tensors inputs A chunk retain h).err = some Err.value ∧
     (backward E tensors inputs A chunk retain h).grads = h := by
-  sorry
+  rw [backward_eq_go E tensors inputs A chunk retain h hv.chunk_pos]
+  exact go_wrong_length E hv.wf tensors inputs A _ retain h hv.tensors_nodup hv.inputs_nodup
+    hv.rows_pos (toNat_chunk_pos chunk hv.chunk_pos) hne hv.outs_rg
+    (fun i hi => (hv.ins_ok i hi).1) v hA hlen
 
 /-- with no inputs nothing is differentiated and nothing changes -/
 theorem backward_no_inputs (E : Engine α) (tensors : List Key) (A : Mat α → Except Err (Vec α))
@@ -74,13 +88,23 @@ theorem backward_no_inputs (E : Engine α) (tensors : List Key) (A : Mat α → 
     (hc : ∀ c, chunk = some c → 0 < c) (ht : tensors ≠ []) (hnd : tensors.Nodup) :
     (backward E tensors [] A chunk retain h).err = none ∧
     (backward E tensors [] A chunk retain h).grads = h := by
-  sorry
+  rw [backward_eq_go E tensors [] A chunk retain h hc]
+  exact go_no_inputs E tensors A _ retain h ht hnd
 
 /-- an input that no listed tensor depends on contributes an all-zero column block to the Jacobian -/
 theorem fullJac_unreachable_zero (E : Engine α) (tensors inputs : List Key) (k : Key)
     (hk : ∀ t ∈ tensors, E.jac t k = none) (row : Vec α) (hrow : row ∈ fullJac E tensors (k :: inputs)) :
     row.take (E.numel k) = zeros (E.numel k) := by
-  sorry
+  unfold fullJac at hrow
+  obtain ⟨t, ht, hrow⟩ := List.mem_flatMap.mp hrow
+  unfold fullJacRows at hrow
+  obtain ⟨r, hr, rfl⟩ := List.mem_map.mp hrow
+  have hr' : r < E.numel t := List.mem_range.mp hr
+  have hb : (E.block t k).getD r [] = zeros (E.numel k) := by
+    rw [block_of_none E t k (hk t ht)]
+    simp [List.getD_eq_getElem?_getD, hr']
+  rw [List.flatMap_cons, hb]
+  simp [zeros]
 
 /-- ORDER INDEPENDENCE.  Reordering the inputs permutes the columns of the Jacobian; if the
     aggregator commutes with column permutations (every aggregator of the library does: C08), each
@@ -98,15 +122,44 @@ theorem backward_order_indep (E : Engine α) (tensors I I' : List Key)
     (v : Vec α) (hv : A (fullJac E tensors I) = .ok v) (hlen : v.length = (I.map E.numel).sum) :
     ∃ v', A (fullJac E tensors I') = .ok v' ∧
       ∀ k ∈ I, sliceOf E.numel I k v = sliceOf E.numel I' k v' := by
-  sorry
+  have hpc : ∀ p : List Nat, (permCols p : Vec α → Vec α) = pc p := fun _ => rfl
+  have hsub : ∀ k ∈ I', k ∈ I := fun k hk => hperm.mem_iff.mpr hk
+  have hJ : fullJac E tensors I ≠ [] := by
+    intro h0
+    have := fullJac_length E tensors I
+    rw [h0] at this
+    simp at this
+    omega
+  have hJ' : fullJac E tensors I' =
+      (fullJac E tensors I).map (permCols (colPerm E.numel I I')) := by
+    rw [hpc]; exact fullJac_colPerm E hE tensors I I' hsub
+  have hApp := hA (fullJac E tensors I) ((I.map E.numel).sum) (colPerm E.numel I I') hJ
+    (colPerm_perm E.numel I I' hI hperm) (fullJac_row_length E hE tensors I)
+  refine ⟨permCols (colPerm E.numel I I') v, ?_, ?_⟩
+  · rw [hJ', hApp, hv]; rfl
+  · intro k hk
+    exact (sliceOf_colPerm E.numel I I' v 0 k hk (hperm.mem_iff.mp hk) hlen).symm
 
 /-- the hypothesis of `backward_order_indep` is satisfiable: `Sum()` and `Constant(w)` commute with
     column permutations -/
 theorem sumAgg_columnEquivariant : ColumnEquivariant (sumAgg : Mat α → Except Err (Vec α)) := by
-  sorry
+  intro J n p hJ hp hrows
+  have hpc : (permCols p : Vec α → Vec α) = pc p := rfl
+  have hpl : p.length = n := by rw [hp.length_eq]; simp
+  simp only [sumAgg, Except.map]
+  rw [hpc, ncols_map_pc p J hJ, ncols_of_rows n J hJ hrows, List.length_map,
+    pc_combine p n J _ hrows]
 
 theorem constAgg_columnEquivariant (w : Vec α) : ColumnEquivariant (constAgg w) := by
-  sorry
+  intro J n p hJ hp hrows
+  have hpc : (permCols p : Vec α → Vec α) = pc p := rfl
+  have hpl : p.length = n := by rw [hp.length_eq]; simp
+  simp only [constAgg, List.length_map]
+  by_cases hl : J.length ≠ w.length
+  · rw [if_pos hl, if_pos hl]; rfl
+  · rw [if_neg hl, if_neg hl]
+    simp only [Except.map]
+    rw [hpc, ncols_map_pc p J hJ, ncols_of_rows n J hJ hrows, pc_combine p n J _ hrows]
 
 /-! non-vacuity: a concrete engine over ℤ-like scalars meeting `ValidCall` is exhibited in
     TjdProps/C01Example.lean (two outputs of shapes [] and [2], three inputs of shapes [], [2,1], [3],
